@@ -26,7 +26,9 @@ def real_dump(exe, path, timeout=60):
 
 
 def model_dump(oracle, path, timeout=120):
-    rc, out, err = run_limited([oracle, 'pp', path], timeout=timeout, cap=512 << 20)
+    # the extracted functions are not tail recursive: give the oracle a big stack
+    rc, out, err = run_limited(['sh', '-c', 'ulimit -s 4000000 2>/dev/null || ulimit -s unlimited 2>/dev/null; exec "$0" "$@"', oracle, 'pp', path],
+                               timeout=timeout, cap=512 << 20)
     o = out.decode('latin-1')
     i = o.rfind('END ')
     if i < 0:
@@ -43,7 +45,11 @@ def spec_lines(text, path, names_num):
     i = 0
     while i < len(toks) and toks[i][0] == 'TNEWLINE':
         i += 1
+    bol = True
     for k, sp, space, off in toks[i:]:
+        if bol and k == 'THASH':
+            return res, 'directive'      # a directive: outside the domain of this check (C11/C12 own them)
+        bol = k == 'TNEWLINE'
         res.append((off, names_num[k], 1 if space else 0, sp))
     return res, end
 
@@ -55,6 +61,9 @@ def compare_file(args):
     out = dict(path=path, cat=cat, ntok=0, nlines=text.count(b'\n'), viol=None, drift=None, multi=0, kinds={})
     rc, rout, rerr = real_dump(exe, path)
     spec, send = spec_lines(text, path, names_num)
+    if send == 'directive':
+        out['domain'] = False
+        return out
     ph = L.physical(text)
     rl = rout.split('\n')
     if rl and rl[-1] == '':
@@ -70,11 +79,7 @@ def compare_file(args):
         if len(p) < 5 or int(p[1]) != kn or int(p[2]) != space or p[4] != (sp if '\0' not in sp else sp[:sp.index('\0')]):
             bad = i
             break
-        if kn != 2:     # TNEWLINE carries the location of the character after it (see C11)
-            line, col = ph[off]
-            if not p[0].endswith(':%d:%d' % (line, col)):
-                bad = i
-                break
+        # locations are property C11's business (props/c11.py); here they are compared model-vs-real only
         if len(sp) > 1:
             out['multi'] += 1
         kinds[kn] = kinds.get(kn, 0) + 1
@@ -84,8 +89,9 @@ def compare_file(args):
     if bad is None and (send != 'eof') != real_err:
         bad = n
     if bad is not None:
+        off = spec[bad][0] if bad < len(spec) else (spec[-1][0] if spec else 0)
         out['viol'] = dict(index=bad, real=rl[bad:bad + 2], spec=[repr(x) for x in spec[bad:bad + 2]], rc=rc,
-                           err=rerr[:200], send=send)
+                           err=rerr[:200], send=send, off=off)
     # ---- model vs real (exact, including locations, hide excepted)
     if want_model and oracle:
         mout, mend = model_dump(oracle, path)
@@ -162,7 +168,7 @@ def gen_numbers(rng, n):
     fixed = ['1e+5', '0xe+1', '.5.', '1..2', '0b1', '1_000', '0x1p-3', '1e+-5', '1e+-+-5', '0x1p-+3', '1.e-', '1e+', '1E-x',
              '1.2.3', '.5e+5+5', '1a+1', '1p+1', '0x.p-', '1+1', '..5', '...5', '.5...', '1.', '1e', '12_e+3', '9e+e+', '08',
              '1u8"x"', '0x', '0x1.8p+1f', '1.0e-10L', '0XABCdefULL', '0777', '1e+5e-3', '1P+1-1', '.1E+', '5.e+.e+', '1_e-1', '1e_-1',
-             '0e+0', '1e--1', '1e++1', '3.14f', '1uLL', '0b1010u', "1'000", '0x1p', '1p-', '.e+5', '1..e+5', '1...2', '0.0.0e+1-1']
+             '0e+0', '1e--1', '1e++1', '3.14f', '1uLL', '0b1010u', '0x1p', '1p-', '.e+5', '1..e+5', '1...2', '0.0.0e+1-1']
     for f in fixed:
         yield f
     pre = ['', '0', '0x', '0X', '0b', '.', '1.', '12', '9', '0.']
@@ -175,12 +181,12 @@ def gen_numbers(rng, n):
         yield s
 
 
-def gen_sequence(rng, ntok, splice=0.0, comments=True):
+def gen_sequence(rng, ntok, splice=0.0, comments=True, stray=True):
     """a long, mostly valid token sequence with comments (no '#' at line start, no unterminated literals)"""
     puncts = list(L.PUNCT)
     kws = list(L.KEYWORD)
     out = []
-    col0 = True
+    col0 = True          # no token yet on this logical line (white space and comments do not count)
     for _ in range(ntok):
         r = rng.random()
         if r < 0.30:
@@ -197,13 +203,20 @@ def gen_sequence(rng, ntok, splice=0.0, comments=True):
             t = rng.choice(["'a'", "'\\''", "L'x'", "u'\\n'", "U'\\0'", "u8'a'", "'\"'", "'\\\\'", "'ab'"])
         elif r < 0.84 and comments:
             t = rng.choice(['/**/', '/* c */', '/*/ */', '/***/', '/* " */', "/* ' */", '/* // */', '/*\n*/', '/* a\n b\n*/', '// x\n', '// /* \n', '//\n'])
+            if not stray and '\n' in t and t.startswith('/*'):
+                t = '/* one line */'
         elif r < 0.90:
             t = rng.choice(['\n', '\n', ' \n', '\t'])
-        else:
+        elif stray:
             t = rng.choice(['$', '@', '`', '\\', '\x7f', '\x80', '\xff', '\x01', '\r', '?'])
+        else:
+            t = rng.choice(['?', '~', ',', ';'])
         sep = rng.choice(['', '', ' ', ' ', '\t', '  ', '\f', '\v'])
         out.append(t + sep)
-        col0 = (t + sep).endswith('\n')
+        if t.endswith('\n'):
+            col0 = True
+        elif not (t.startswith('/*') or t.strip(' \t') == ''):
+            col0 = False
     s = ''.join(out) + '\n'
     if splice:
         chars = list(s)
@@ -238,17 +251,6 @@ PREFIX_CASES = ['u8"a"', 'u8 "a"', 'u8x', "u8'a'", 'L"x"', 'LL"x"', 'u"x"', "U'\
                 'a/*\n*/b', 'a/* \\\n */b', 'a//\\\nstill comment\nb', '/\\\n* c *\\\n/ d', '/\\\n/ c\nd']
 
 
-def chunks(lines, n):
-    buf = []
-    for l in lines:
-        buf.append(l)
-        if len(buf) >= n and not l.startswith('x ') is False and '/*' not in l:
-            yield buf
-            buf = []
-    if buf:
-        yield buf
-
-
 def clang_tokens(path):
     """(spelling, line, col) list from clang -dump-tokens, or None"""
     rc, out, err = sh(['clang', '-std=c2x', '-fsyntax-only', '-w', '-Xclang', '-dump-tokens', path], timeout=120)
@@ -261,22 +263,23 @@ def clang_tokens(path):
     return res
 
 
-DIGRAPHISH = re.compile(r'<:|:>|<%|%>|%:|\?\?|[$@`\\]|[^\x20-\x7e\n\t]')
+# lines on which clang (-std=c2x) and the C11 specification legitimately differ: digraphs, trigraphs, u8 character constants,
+# C23 digit separators (a quote directly after a pp-number), $ @ ` and non-printable bytes
+DIGRAPHISH = re.compile(r"<:|:>|<%|%>|%:|\?\?|u8'|[0-9][0-9A-Za-z_.+-]*'|[$@`]|[^\x20-\x7e\n\t]")   # u8'a' is C23, clang 14 splits it
 
 
-def shrink_text(text, still_bad):
-    """line-wise then character-wise reduction of a failing text"""
-    lines = text.split(b'\n')
-    # keep a window around the failing line: try single lines and pairs first
-    for w in (1, 2, 3):
-        for i in range(len(lines)):
-            cand = b'\n'.join(lines[i:i + w]) + b'\n'
+def shrink_text(text, still_bad, off=None):
+    """reduce a failing text: the line(s) around the first differing token, then character-wise"""
+    if off is not None and len(text) > 200:
+        ln = text.count(b'\n', 0, off)
+        lines = text.split(b'\n')
+        for lo, hi in ((ln, ln + 1), (ln - 1, ln + 1), (ln - 2, ln + 2), (ln - 5, ln + 3), (ln - 20, ln + 5)):
+            cand = b'\n'.join(lines[max(lo, 0):hi]) + b'\n'
             if still_bad(cand):
                 text = cand
-                lines = None
                 break
-        if lines is None:
-            break
+    if len(text) > 3000:
+        return text
     changed = True
     while changed and len(text) > 1:
         changed = False
@@ -371,26 +374,27 @@ def run(ctx):
     for i in range(0, len(kwl), 9000):
         add('kw', '\n'.join(kwl[i:i + 9000]) + '\n')
     nums = list(gen_numbers(rng, 3000 if not thorough else 40000))
-    add('num', ' '.join(nums) + '\n' + '\n'.join('x ' + n for n in nums) + '\n' + '\n'.join(n + ';' for n in nums) + '\n')
+    for i in range(0, len(nums), 3000):
+        part = nums[i:i + 3000]
+        add('num', ' '.join(part) + '\n' + '\n'.join('x ' + n for n in part) + '\n' + '\n'.join(n + ';' for n in part) + '\n')
     add('splice', '\n'.join(gen_splices()) + '\n')
     add('prefix', '\n'.join('x ' + c for c in PREFIX_CASES) + '\n' + ' '.join(c for c in PREFIX_CASES if '\n' not in c and '//' not in c) + '\n')
-    for b in range(1, 256):
-        if b in (0x22, 0x27, 0x0a):
-            continue
     add('bytes', b''.join(b'x ' + bytes([b]) + b' y' + bytes([b]) + b'z\n' for b in range(0, 256) if b not in (0x22, 0x27, 0x0a, 0x5c)) +
         b'x \\ y\\z \\\\ w\n')
-    nseq = 120 if not thorough else 1500
+    nseq = 120 if not thorough else 8000
     for _ in range(nseq):
         add('seq', gen_sequence(rng, rng.choice([20, 60, 200, 600])))
-    for _ in range(40 if not thorough else 400):
+    for _ in range(30 if not thorough else 1500):
+        add('seqclean', gen_sequence(rng, rng.choice([60, 200]), stray=False).replace('\f', ' ').replace('\v', ' '))
+    for _ in range(40 if not thorough else 3000):
         add('seqsplice', gen_sequence(rng, rng.choice([20, 80]), splice=rng.choice([0.02, 0.1, 0.3])))
     # a splice at every position of a few generated sequences
-    for _ in range(6 if not thorough else 40):
+    for _ in range(6 if not thorough else 300):
         base = gen_sequence(rng, 12, comments=True)
         var = [base[:i] + '\\\n' + base[i:] for i in range(len(base))]
         add('seqevery', 'x\n'.join(var))
     # malformed stream: each must be rejected or accepted by all three alike
-    for bad in ['"abc\n', "'a\n", '"abc', "'", '/* open', 'x /* y\n', '"\\q"\n', '"\\x"\n', "'\\8'\n", 'L"\\xg"\n', 'u8"\n', 'x "a\0b" y\n',
+    for bad in ["x 1'000;\n", '"abc\n', "'a\n", '"abc', "'", '/* open', 'x /* y\n', '"\\q"\n', '"\\x"\n', "'\\8'\n", 'L"\\xg"\n', 'u8"\n', 'x "a\0b" y\n',
                 "x 'a\0' y\n", '"\\\0"\n', 'a "b\\\n', 'x\\', '..\\', 'a\0b\n', 'L\'\\', '"\\']:
         add('bad', bad)
 
@@ -418,7 +422,7 @@ def run(ctx):
                 open(p, 'wb').write(t)
                 rr = compare_file((p, t, 'shrink', False))
                 return rr['viol'] is not None
-            small = shrink_text(text, still_bad) if len(text) < 400000 or r['viol']['index'] >= 0 else text
+            small = shrink_text(text, still_bad, r['viol'].get('off'))
             p = os.path.join(ctx.tmp, 'shrink.c')
             open(p, 'wb').write(small)
             rr = compare_file((p, small, 'shrink', False))
@@ -446,7 +450,7 @@ def run(ctx):
 
     # ---------------------------------------------------------------- S cross-checked with clang
     cl_bad = 0
-    cl_files = [f for f in files if f[2] in ('num', 'seq', 'prefix', 'splice')][:40 if not thorough else 300]
+    cl_files = [f for f in files if f[2] in ('num', 'seqclean', 'prefix')][:40 if not thorough else 300]
     ex3 = '\n'.join(l for l in gen_exhaustive(3)) + '\n'
     p3 = os.path.join(work, 'exh3_clang.c')
     open(p3, 'w').write(ex3)
@@ -456,10 +460,8 @@ def run(ctx):
         path, text, cat, _ = f
         # line-wise filter: keep lines clang and the specification are both defined on (no digraphs, trigraphs, $ @ ` \ or control bytes)
         s = text.decode('latin-1')
-        if cat in ('seq', 'splice', 'prefix'):
-            if DIGRAPHISH.search(s.replace('\\\n', '')):
-                return None
-            keep = s
+        if False:
+            pass
         else:
             keep = '\n'.join(l for l in s.split('\n') if not DIGRAPHISH.search(l)) + '\n'
         toks, end = L.lex(keep.encode('latin-1'), keywords=False)
@@ -486,11 +488,11 @@ def run(ctx):
     ctx.ob('S:reference lexer = clang -dump-tokens on %d files / %d tokens (digraph- and trigraph-free)' % (stats['clang_files'], stats['clang_tokens']), cl_bad == 0)
 
     # ---------------------------------------------------------------- compile path (no hook needed)
-    cp = [('int a = 3, b = 4; int r = a+++b; int a2 = a, b2 = b;', None),
+    cp = [('int f0(void) { int a = 3, b = 4; int r = a+++b; return r+a---b; }', None),
           ('int chk1 = 7 - - -2; int chk2 = 1e+5-1 > 0; int chk3 = 0xe + 1; int chk4 = sizeof(int)>=4;', {'chk1': 5, 'chk2': 1, 'chk3': 15, 'chk4': 1}),
           ('int x = 1; int f(void) { x<<=2; x>>=1; x-=-1; return x; }', None),
           ('struct s { int m; } v, *p = &v; int g(void) { return p->m+v.m; }', None),
-          ('int h(int n, ...); int k = sizeof(L"ab") / sizeof(L\'a\') ; char *q = u8"x" "y";', None)]
+          ('int h(int n, ...); int k = sizeof(L"ab") / sizeof(L\'a\') ; const void *q = u8"x" "y";', None)]
     cp_bad = 0
     for src, exp in cp:
         rc, out, err = ctx.qbe(src + '\n')
@@ -503,6 +505,10 @@ def run(ctx):
                 if not m or int(m.group(1)) != val:
                     cp_bad += 1
                     ctx.violation('%s evaluates to %s, C11 tokenisation gives %d' % (nme, m.group(1) if m else None, val), src + '\n', 'c', key='lex:compile')
+    rc, out, err = ctx.qbe('int z = 0xe+1;\n')
+    if rc == 0:
+        cp_bad += 1
+        ctx.violation('`0xe+1` accepted: it is ONE preprocessing number (6.4.8) and not a valid constant', 'int z = 0xe+1;\n', 'c', key='lex:compile')
     for w in ['int', 'while', '_Alignas', '__typeof__', 'typeof_unqual', 'nullptr']:
         rc, out, err = ctx.qbe('int %s;\n' % w)
         if rc == 0:
